@@ -297,7 +297,12 @@ def run_core(ctx, pid, oracle, gens, corr_name):
     import c10sim
     tier, seed = ctx["tier"], ctx["seed"]
     drv = Driver(ctx["driver"])
-    scs = gens(tier, seed)
+    if ctx.get("replay"):
+        payload = json.load(open(ctx["replay"]))
+        scs = [dict(payload["scenario"], tag="replay")]
+        print("replaying scenario:", json.dumps(payload["scenario"]))
+    else:
+        scs = gens(tier, seed)
     cov = Coverage("scenario = (hosts, dial script, verify script, subscription flag, timed controls); distinct canonical "
                    "scenario and non-trivial when at least one connection attempt happened")
     viols = []
@@ -309,6 +314,10 @@ def run_core(ctx, pid, oracle, gens, corr_name):
         mtrace = c10sim.canon([tuple(e) for e in mtrace])
         orc = oracle(sc, itrace)
         scj = {k: v for k, v in sc.items() if k != "tag"}
+        if ctx.get("replay"):
+            for e in itrace:
+                print("  impl", e)
+            print("  oracle:", orc or "no property failure on this trace")
         for key, text in orc:
             viols.append(violation(key, text, True, scenario=scj, impl_trace=itrace[:200]))
         if fuel:
